@@ -32,6 +32,10 @@ func Convert(src interface{}, t reflect.Type) (interface{}, error) {
 	}
 	t2 := reflect2.Type2(t)
 	p := t2.New()
+	if src == nil {
+		// nil converts to the zero value, as decoding a null does
+		return t2.Indirect(p), nil
+	}
 	if converter := GetConverter(reflect.TypeOf(src), t); converter != nil {
 		dec := NewDecoder(nil)
 		if converter(dec, src, p); dec.Error == nil {
